@@ -890,6 +890,49 @@ Plan materialise_fs_plan(const Plan &plan) {
   return m;
 }
 
+// What the process did before this plan (generated part; the pool's own history is recovered by the driver when a report
+// does not reproduce in a fresh process): one earlier plan on a sibling of this project.
+void attach_history(Plan &p, Rng &rng) {
+  if (p.world != "vm" && p.world != "fs") return;
+  Plan base = p.world == "fs" && !p.ops.empty() ? materialise_fs_plan(p) : p;
+  if (base.proj.files.empty()) return;
+  Plan h;
+  h.prop = p.prop; h.world = "fs"; h.seed = p.seed; h.run = p.run; h.sub = p.sub;
+  h.proj.files = base.proj.files; h.proj.main = base.proj.main; h.proj.has_ast = false;
+  int v = (int)rng.below(4);
+  if (v == 3 && p.world == "vm") { h = p; h.history.clear(); h.note = "earlier in the same process: the same plan"; p.history.push_back(h); return; }
+  if (v == 2) {
+    // one number in the body of a macro definition changed: same pattern, other meaning
+    std::vector<std::pair<std::string, Span>> cands;
+    for (auto &kv : h.proj.files) {
+      auto sp = split_tokens(kv.second);
+      bool in_def = false, after_as = false;
+      for (auto &q : sp) {
+        std::string w = kv.second.substr(q.a, q.b - q.a), u = w;
+        for (auto &c : u) c = (char)toupper((unsigned char)c);
+        if (u == "DEFINE" || u == "DEF") { in_def = true; after_as = false; }
+        else if (u == "END DEFINE" || u == "ENDDEF") in_def = false;
+        else if (in_def && !after_as && u == "AS") after_as = true;
+        else if (in_def && after_as && !w.empty() && w.size() < 9 && std::all_of(w.begin(), w.end(), [](char c) { return isdigit((unsigned char)c); })) cands.push_back({kv.first, q});
+      }
+    }
+    if (cands.empty()) v = 1;
+    else {
+      auto &c = cands[rng.below(cands.size())];
+      std::string &f = h.proj.files[c.first];
+      long long val = atoll(f.substr(c.second.a, c.second.b - c.second.a).c_str());
+      f.replace(c.second.a, c.second.b - c.second.a, std::to_string(val + 1 + (long long)rng.below(3)));
+      h.note = "earlier in the same process: the same project with another number in a macro body";
+    }
+  }
+  if (v == 1) {
+    for (auto &kv : h.proj.files) kv.second = std::string((size_t)rng.range(1, 4), '\n') + kv.second;
+    h.note = "earlier in the same process: the same files, every line further down";
+  }
+  if (v == 0 || v == 3) h.note = "earlier in the same process: the same files";
+  p.history.push_back(h);
+}
+
 void exec_fs_plan(const Plan &plan, Ctx &ctx, Outcome &out) {
   FsWorld w(plan, ctx, out);
   if (plan.world == "incl") w.run_incl();
@@ -939,7 +982,7 @@ Op random_fault(Rng &rng, const Project &p) {
   return o;
 }
 
-const char *ODD_NAMES[] = {"", "a b.theo", "main.theo", "x", "__standards__", "-", "dir/sub.theo", "//x"};
+const char *ODD_NAMES[] = {"", "a b.theo", "main.theo", "x", "__standards__", "-", "dir/sub.theo", "//x", "lib\\m.theo", "dir\\", "a'b", "\\\\x\\n"};
 
 Plan gen_incl_plan(Rng &rng, long long sub, bool thorough) {
   Plan p;
@@ -948,7 +991,7 @@ Plan gen_incl_plan(Rng &rng, long long sub, bool thorough) {
   std::vector<std::string> names;
   for (int i = 0; i < nfiles; i++) {
     std::string n = i == 0 ? "main.theo" : "f" + std::to_string(i);
-    if (rng.chance(1, 12)) n = ODD_NAMES[rng.below(8)];
+    if (rng.chance(1, 10)) n = ODD_NAMES[rng.below(12)];
     else if (i > 0 && rng.chance(1, 5)) n = names[rng.below(names.size())] + (rng.chance(1, 2) ? "_ext" : "0");   // a name that extends another file's name
     if (i == 0 && n == "__standards__") n = "main.theo";   // the main file itself is never given the reserved name
     if (std::find(names.begin(), names.end(), n) != names.end()) n += std::to_string(i);
@@ -1018,7 +1061,7 @@ Plan gen_macro_plan(Rng &rng, bool thorough) {
   std::string text;
   bool divergent = false, dup = false, cheap = false, family = false;
   int w = (int)rng.below(100);
-  if (rng.chance(1, thorough ? 150 : 250)) {
+  if (rng.chance(1, thorough ? 150 : 500)) {
     // large-stream regime: a self-reproducing macro with a long body, and a budget under which the stream reaches 70-95 thousand tokens
     int nst = (int)rng.range(100, 300);
     text = "DEFINE a AS a";
@@ -1050,6 +1093,27 @@ Plan gen_macro_plan(Rng &rng, bool thorough) {
       text = t2;
     }
     for (int i = 0; i < reps; i++) { if (i) text += " ;\n"; text += f.use; }
+    if (rng.chance(1, 3)) {
+      // keywords match by token type, not by spelling: every occurrence gets one of the lexer's three spellings at random
+      static const char *RESPELL[] = {"LOOP", "DO", "END", "RUN", "WITH", "IF", "THEN", "ELSE", "WHILE", "GOTO", "PROGRAM", "IN", "OUT", "AS", "DEFINE", "PRIO"};
+      std::string t2; size_t pos = 0;
+      while (pos < text.size()) {
+        if (isspace((unsigned char)text[pos])) { t2 += text[pos++]; continue; }
+        size_t e = pos; while (e < text.size() && !isspace((unsigned char)text[e])) e++;
+        std::string w = text.substr(pos, e - pos);
+        bool kw = false;
+        for (auto *k : RESPELL) if (w == k) kw = true;
+        bool before_define = w == "END" && text.compare(e, 7, " DEFINE") == 0;
+        bool after_end = w == "DEFINE" && pos >= 4 && text.compare(pos - 4, 4, "END ") == 0;
+        if (kw && !before_define && !after_end && w != "ELSE") {
+          int sp = (int)rng.below(3);
+          if (sp == 1) for (size_t i = 1; i < w.size(); i++) w[i] = (char)tolower((unsigned char)w[i]);
+          if (sp == 2) for (auto &ch : w) ch = (char)tolower((unsigned char)ch);
+        }
+        t2 += w; pos = e;
+      }
+      text = t2;
+    }
     p.note = "macro family";
   } else {
     // random macro sets over a small vocabulary; divergence unknown (decided by the second-pass oracle)
@@ -1159,7 +1223,7 @@ Plan gen_fs_plan(const std::string &prop, Rng &rng, long long sub, const std::st
   int nf = mode < 60 ? 0 : (int)rng.range(1, 3);
   if (mode >= 12 && mode < 20) nf = 0;
   for (int i = 0; i < nf; i++) p.ops.push_back(random_fault(rng, p.proj));
-  if (rng.chance(1, 25)) { Op o; o.k = "rename_main"; o.s = ODD_NAMES[rng.below(8)]; p.ops.push_back(o); }
+  if (rng.chance(1, 25)) { Op o; o.k = "rename_main"; o.s = ODD_NAMES[rng.below(12)]; p.ops.push_back(o); }
   p.note = nf ? "valid project + faults" : "valid project, no fault";
   return p;
 }
